@@ -205,12 +205,14 @@ CLAIMS = {
     "C19": dict(
         technique="Lean 4 induction over programs on a provenance model of the __torch_function__ dispatcher, "
                   "__getitem__, cat/split, copy/pickle + exact correspondence on random op programs",
-        text="14 theorems: for programs of any length over the op classes where the code is right (elementwise, casts, "
-             "clone, indexing by int/slice/list/tensor, iteration, cat/split/tensor_split along dim 0, chunk/unbind, "
-             "ops along non-batch dims, interpolate, pooling, copy/deepcopy/pickle) every typed result carries one grid "
-             "per entry of matching shape, entry i carrying the grid (and axes) of the item whose data it holds; typed "
-             "ImageBatch results always have matching grid count/shape (demotion); the full statement is refuted with "
-             "small witnesses for each op class the current code still mis-describes (flip/roll/index_select along the batch dim, permute moving the batch dim: 4 known findings); ten defects were repaired by fix: commits.",
+        text="13 theorems, no refutation left: for programs of any length over the generated op classes (elementwise, casts, "
+             "clone, indexing by int/slice/list/tensor, iteration, cat/split/tensor_split along dim 0, chunk/unbind, flip, roll, "
+             "index_select, permute/transpose, ops along non-batch dims, interpolate, pooling, copy/deepcopy/pickle) every typed "
+             "result carries one grid per entry of matching shape, entry i carrying the grid (and axes) of the item whose data it "
+             "holds (C19_aligned_partial: the invariant does not yet cover batch-dim literals of narrow/select/reductions, "
+             "reshape-like ops, ellipsis indices and from_images/collate, for which C19_demote gives count and shape); typed "
+             "results always have matching grid count/shape (demotion); flip/roll/index_select reorder the grids with the "
+             "entries, the permute family demotes. All 14 defects found were repaired by fix: commits; no C19 finding is open.",
         ref="5 C19"),
     "C20": dict(
         technique="Lean 4 HasDerivAt theorems for closed-form model gradients of polynomial/rational operations + "
